@@ -728,12 +728,28 @@ class PteraTransformer(NodeTransformer):
                 )
 
         for fv in sorted(self.free):
-            new_body.extend(
-                self.make_interaction(
-                    target=fv,
-                    ann=None,
-                    value=ast.Name(id=fv, ctx=ast.Load()),
-                    orig=node,
+            fetch = self.make_interaction(
+                target=fv,
+                ann=None,
+                value=ast.Name(id=fv, ctx=ast.Load()),
+                orig=node,
+            )
+            # The cell of a closure variable may still be empty (the enclosing
+            # function binds it later): the variable is then left alone, and
+            # using it raises NameError at that point, as in the original
+            # function
+            new_body.append(
+                ast.Try(
+                    body=fetch,
+                    handlers=[
+                        ast.ExceptHandler(
+                            type=self._get("NameError"),
+                            name=None,
+                            body=[ast.Pass()],
+                        )
+                    ],
+                    orelse=[],
+                    finalbody=[],
                 )
             )
 
@@ -1286,6 +1302,7 @@ def transform(fn, proceed, to_instrument=True, set_conformer=True):
         ),
         "ABSENT": ("__ptera_ABSENT", ABSENT),
         "PteraNameError": ("__ptera_PteraNameError", PteraNameError),
+        "NameError": ("__ptera_NameError", NameError),
         "Key": ("__ptera_Key", Key),
         "get_tags": ("__ptera_get_tags", get_tags),
         "suspend": ("__ptera_suspend", _suspend),
